@@ -1,8 +1,44 @@
-(* C08 — accumulated patches are delivered completely, atomically and exactly once (function level:
-   patching.patch_obj, application.patch_and_check/apply).  Only statements here; proofs in Proofs/PatchObj.v.
-   The API server is an oracle ([S], [serve]) in the generic theorems and the small stateful server
-   [po_wserve] (RFC 7386 / RFC 6902 writes, a fresh resourceVersion per write, one foreign write slipped in
-   before request number [slip], arbitrary server-side post-processing [post]) in the others. *)
+(* C08 — accumulated patches are delivered completely, atomically and exactly once.
+   Function level: patching.patch_obj, application.patch_and_check / apply (Model/PatchObj.v, Proofs/PatchObj.v);
+   carry level: processing.process_resource_event's memory.remaining_patch from cycle to cycle (Model/Carry.v, Proofs/Carry.v).
+   Only statements here.  The API server is an oracle ([S], [serve]: EVERY server behaviour) in the generic theorems and the
+   stateful server [po_wserve] in the others (RFC 7386 / RFC 6902 writes, status-subresource picking, a fresh resourceVersion per
+   write, one foreign write — edit, delete, delete-and-recreate — slipped in before request number [slip], arbitrary server-side
+   post-processing [post]); its instance po_fake_* is tied to harness/kv/fakeapi.py by the differential D:server.
+
+   CLAUSE TABLE (statement of C08 in properties.jsonl; quantifier: every patch content x transformations, with/without status
+   subresource, every position of a foreign write relative to the four requests, every 404/422, delete-and-recreate timings)
+
+   1 "everything accumulated reaches the API server as merge-patches"
+        full      C08_everything_sent (every key, incl. status: None, in exactly one payload), C08_merge_parts_sent (all planned
+                  requests are sent when nothing is refused), C08_merge_complete (no subresource: exact final object, arbitrary
+                  post, incl. the transformations under the from_diff law), C08_merge_complete_sub (subresource, plain server:
+                  final object = RFC 7386 merge of the whole patch, key by key, for every patch with unique keys)
+        not covered  final object WITH transformations under a subresource: the ops are split by destination path and the
+                  RFC 6902 meaning of the two halves is not derivable from the from_diff law (a `move` across the split is even
+                  lost: Proofs/PatchObj.v po_ex_move_across_split — candidate finding, reported to the lead)
+   2 "status through the status subresource exactly when the resource has one"
+        full      C08_split (also: each part at most once, order, test op in front of every JSON batch)
+   3 "only ever lands on the object it was computed for, never on a later object that reuses its name"
+        refuted   C08_lands_on_same_object_refuted (finding F6: merge-patches carry no precondition)
+        partial   C08_lands_on_same_object_partial (all writes, while the uid behind the name is stable),
+                  C08_lands_on_same_object_fns_only (NO assumption on the other writer: a call with transformations only
+                  writes to the computed-for uid or not at all), C08_fns_atomic (every JSON batch, any call: applied to exactly
+                  the body it tests).  This is as far as F6 allows: the only writes without a guard are the merge-patches.
+        monitored history level (lead): delete-and-recreate timings against running handlers
+   4 "transformations are applied atomically against a specific resource version; if stale nothing computed from it is written"
+        full      C08_fns_atomic (every slip position, every foreign write; body batch: ops computed from the very body whose
+                  version is tested; status batch: ops computed from the body before the body batch, applied to the server's
+                  answer to that body batch or to that body itself), C08_fns_atomic_step
+   5 "carried forward and re-evaluated against a fresh state in the next cycle; neither lost nor duplicated"
+        full      C08_fns_carried (after 422 nothing further is sent, exactly the fns remain, in no other way),
+                  C08_fns_never_lost, C08_fns_delivered (every sequence of cycles)
+        partial   C08_fns_exactly_once / C08_fns_not_duplicated_partial (fresh identities, no accepted-but-failed batch)
+        refuted   C08_fns_not_duplicated_refuted (lost response: re-applied; outside the quantifier, no finding; harmless
+                  for idempotent transformations)
+   6 "a vanished object (404) ends patching silently"
+        full      C08_404_silent, C08_patch_and_check_404_silent, C08_outcomes (every other way a call ends)
+   anchors (application.apply: patch / sleep / touch / applied)      full  C08_apply_decision *)
 From Coq Require Import ZArith List String Bool Ascii Sorted.
 From KV Require Import Base.Json Base.Dicts Model.JsonPatch Model.PatchObj Proofs.PatchObj Model.Carry Proofs.Carry.
 Import ListNotations.
@@ -157,6 +193,45 @@ Theorem C08_apply_decision : forall S serve diff has_sub patch0 clear fns orig d
   (p = false -> po_min delays <> None -> ap_touched r = true \/ (woken = true /\ ap_slept r <> None)).
 Proof. exact po_apply_decision. Qed.
 Print Assumptions C08_apply_decision.
+
+(* with a status subresource and the plain RFC server, nobody else writing: after the (up to two) merge-patch requests the
+   object is the RFC 7386 merge of the WHOLE patch — key by key, the resourceVersion aside — for every patch with unique keys *)
+Theorem C08_merge_complete_sub : forall rvs slip foreign diff patch b0 c0,
+  patch <> [] -> NoDup (map fst patch) -> slip <> 0%nat -> slip <> 1%nat ->
+  let obj0 := po_stamp (rvs c0) b0 in
+  let r := patch_obj po_world (po_wserve rvs (fun _ c => c) true slip foreign) diff true patch [] (Some obj0) (mkW (Some obj0) c0 0 []) in
+  exists final,
+    w_obj (r_srv r) = Some final /\ r_out r = Returned (Some final) None /\ po_all_ok (r_log r) = true /\
+    (forall k, String.eqb k "metadata" = false -> po_top k final = po_top k (merge obj0 (JObj patch))) /\
+    (forall k, String.eqb k "resourceVersion" = false -> po_meta_field k final = po_meta_field k (merge obj0 (JObj patch))).
+Proof. exact po_complete_sub. Qed.
+Print Assumptions C08_merge_complete_sub.
+
+(* whoever else writes — edit, delete, delete-and-recreate under the same name, at any position: a call that carries
+   transformations only writes to an object with the uid it was computed for, or leaves the server unchanged *)
+Theorem C08_lands_on_same_object_fns_only : forall rvs post has_sub slip foreign diff uid,
+  (forall a b, jeqb (rvs a) (rvs b) = true -> a = b) ->
+  (forall old cand, po_uid_field old = Some uid -> po_uid_field (post old cand) = Some uid) ->
+  forall fns b0 c0,
+    let obj0 := po_stamp (rvs c0) b0 in
+    po_uid_field obj0 = Some uid ->
+    let r := patch_obj po_world (po_wserve rvs post has_sub slip foreign) diff has_sub [] fns (Some obj0) (mkW (Some obj0) c0 0 []) in
+    forall e, In e (w_hist (r_srv r)) ->
+      match we_resp e with
+      | ROk new => exists seen, we_before e = Some seen /\ po_uid_field seen = Some uid /\ po_uid_field new = Some uid
+      | _ => we_after e = we_before e
+      end.
+Proof. exact po_fns_only_same_object. Qed.
+Print Assumptions C08_lands_on_same_object_fns_only.
+
+(* 404 at the level of application.patch_and_check: no exception, no version to wait for, nothing remains *)
+Theorem C08_patch_and_check_404_silent : forall S serve diff has_sub patch fns orig (s0 : S) q,
+  po_patch_truthy patch fns = true ->
+  let r := patch_obj S serve diff has_sub patch fns orig s0 in
+  In (q, RNotFound) (r_log r) ->
+  po_patch_and_check S serve diff has_sub patch fns orig s0 = PcOk None None (r_log r) (r_srv r).
+Proof. exact po_pc_404_silent. Qed.
+Print Assumptions C08_patch_and_check_404_silent.
 
 (* ---------- the carry-over from cycle to cycle (Model/Carry.v: process_resource_event's memory.remaining_patch) ---------- *)
 
